@@ -5,4 +5,6 @@ export GOFLAGS=-mod=mod GOPROXY=off GOSUMDB=off GOTOOLCHAIN=local
 mkdir -p bin .build evidence found
 go build -o bin/vcheck ./cmd/vcheck || exit 2
 go test -c -vet=off -tags verif -o .build/props.test ./props || exit 2
+# the reference model is pinned by its own unit tests (from the property texts)
+go test -count=1 ./internal/model || exit 2
 echo "setup ok"
